@@ -4,7 +4,8 @@ from lib import fw
 
 MODULES = ["SunriseVerif.Props.C01", "SunriseVerif.Props.C01DA", "SunriseVerif.Props.C01Gauge", "SunriseVerif.Props.C01Proposal", "SunriseVerif.Props.ParamGuards", "SunriseVerif.Props.ParamGuardsDA",
            # the decimal library's range assertions: no range panic of the pool arithmetic inside explicit input boxes
-           "SunriseVerif.Props.C15Range"]
+           "SunriseVerif.Props.C15Range",
+           "SunriseVerif.Props.TieGauge", "SunriseVerif.Props.TieDA", "SunriseVerif.Props.TieShare"]
 
 
 def feats(f):
@@ -15,7 +16,7 @@ def feats(f):
 def run(ctx):
     if not ctx.translate():
         return
-    ok = ctx.prove(MODULES, needs_gen=["KernelsCL", "KernelsParamsDA"])
+    ok = ctx.prove(MODULES, needs_gen=["KernelsCL", "KernelsParamsDA", "KernelsTieGauge", "KernelsTieDA", "KernelsTieShare"])
     # directed halt-hunting scenarios on the real application (real blocks, watchdog)
     res = fw.corr(ctx, "halt", 1, driver_suite=False, timeout=900)
     fw.report_corr(ctx, "halt", res, known_features=feats)
